@@ -1,6 +1,7 @@
 (* Model of the persisted GeneratorInfo of pkg/generator (generator.go: initBlockHeader, the tail of forge) and
-   of the environment in which one generator signs headers: the node's tip moving by fork choice, chain
-   switches (delete / apply), restarts and crashes around the persist / hand-off pair.
+   of everything that can happen around one generator: forging (with a crash before the persist or between persist
+   and hand-off), the node's tip changing in ANY way (fork choice, chain switch with deletes and applies, a failed
+   sync leaving a lower tip, the own block not yet — or never — processed), syncing on/off, restarts.
 
    Header fields are those of BFT.Contradiction.bh (height, gen, mhg = maxHeightGenerated, mhp =
    maxHeightPrevoted).  Heights are uint32; `lastBlock.Header.Height + 1` is written with [u32]. *)
@@ -16,26 +17,36 @@ Definition u32 (x : N) : N := x mod W32.
 Record geninfo := { gi_height : N; gi_mhp : N; gi_mhg : N }.
 Definition zero_info : geninfo := Build_geninfo 0 0 0.
 
-(* the node's tip as the generator sees it: maxHeightPrevoted in the tip's header, maxHeightPrevoted of the BFT
-   state after the tip (GetBFTHeights), height of the tip *)
-Record tip := { t_hmhp : N; t_smhp : N; t_height : N }.
+(* the node's tip as the generator sees it: maxHeightPrevoted of the BFT state after the tip (GetBFTHeights)
+   and the height of the tip; any uint32 values *)
+Record tip := { t_smhp : N; t_height : N }.
 
-Definition tip_ok (t : tip) : bool := (t_hmhp t <=? t_smhp t) && (t_height t + 1 <? W32).
-
-(* initBlockHeader.  [prev] is the decoded previous info (zero value when the key is absent).
-   ORIGINAL: MaxHeightGenerated: previousInfo.Height *)
-Definition init_header_orig (disk : option geninfo) (t : tip) (g : N) : bh * geninfo :=
+(* initBlockHeader, three versions.  [prev] is the decoded previous info (zero value when the key is absent).
+   ORIGINAL: MaxHeightGenerated: previousInfo.Height, no guard *)
+Definition init_header_orig (disk : option geninfo) (t : tip) (g : N) : option (bh * geninfo) :=
   let prev := match disk with Some i => i | None => zero_info end in
   let nexth := u32 (t_height t + 1) in
   let m := gi_height prev in
-  (Build_bh nexth g m (t_smhp t), Build_geninfo nexth (t_smhp t) m).
+  Some (Build_bh nexth g m (t_smhp t), Build_geninfo nexth (t_smhp t) m).
 
-(* REPAIRED: the largest height ever generated = max(previousInfo.Height, previousInfo.MaxHeightGenerated) *)
-Definition init_header (disk : option geninfo) (t : tip) (g : N) : bh * geninfo :=
+(* FIRST REPAIR: the largest height ever generated = max(previousInfo.Height, previousInfo.MaxHeightGenerated) *)
+Definition init_header_noguard (disk : option geninfo) (t : tip) (g : N) : option (bh * geninfo) :=
   let prev := match disk with Some i => i | None => zero_info end in
   let nexth := u32 (t_height t + 1) in
   let m := N.max (gi_height prev) (gi_mhg prev) in
-  (Build_bh nexth g m (t_smhp t), Build_geninfo nexth (t_smhp t) m).
+  Some (Build_bh nexth g m (t_smhp t), Build_geninfo nexth (t_smhp t) m).
+
+(* CURRENT code: additionally refuses (error) unless (maxHeightPrevoted, height) of the new header exceeds the
+   persisted info of the header generated last *)
+Definition exceeds (i : geninfo) (m h : N) : bool :=
+  (gi_mhp i <? m) || ((gi_mhp i =? m) && (gi_height i <? h)).
+
+Definition init_header (disk : option geninfo) (t : tip) (g : N) : option (bh * geninfo) :=
+  let nexth := u32 (t_height t + 1) in
+  match disk with
+  | Some i => if exceeds i (t_smhp t) nexth then init_header_noguard disk t g else None
+  | None => init_header_noguard disk t g
+  end.
 
 (* forge() tail: the info of the sealed header is written to the generator DB (one synced batch), and only
    then the block is handed to consensus (AddInternal).  A crash can fall before the write, or between the
@@ -45,83 +56,45 @@ Inductive crash_pt := NoCrash | CrashBeforePersist | CrashAfterPersist.
 Record st := {
   disk : option geninfo;       (* generator DB entry of this generator *)
   node : tip;                  (* the node's current tip *)
-  switching : option tip;      (* Some t0 while a chain switch that started from tip t0 is in progress (Syncing()) *)
+  syncing : bool;              (* Executer.Syncing() *)
   published : list bh          (* headers handed to consensus, newest first *)
 }.
 
-(* lexicographic order on (maxHeightPrevoted of the header, height): the order of fork choice *)
-Definition key_le (a b : tip) : bool :=
-  (t_hmhp a <? t_hmhp b) || ((t_hmhp a =? t_hmhp b) && (t_height a <=? t_height b)).
-
 Inductive ev :=
-| EForge (c : crash_pt) (smhp_after : N)
-    (* one forge on the current tip; without a crash the generated block is accepted by the own node and is
-       the new tip, the BFT state's maxHeightPrevoted after it being [smhp_after] *)
-| ETip (t : tip)              (* tip replaced by fork choice in one step: valid block, tie break, finished switch *)
-| ESwitchBegin                (* different chain detected: syncing, no forging *)
-| EDelete (t : tip)           (* block delete during the switch: any new tip *)
-| EApply (t : tip)            (* block applied during the switch *)
-| ESwitchEnd                  (* switch finished on a tip that is not worse than where it started *)
-| ERestart.                   (* process restart: nothing of this state lives in memory *)
+| EForge (c : crash_pt)       (* one tick of the check loop in a slot of this generator *)
+| ETip (t : tip)              (* the tip becomes anything: own block applied or not, fork choice, delete, apply *)
+| ESync (b : bool)            (* the Executer starts / stops syncing *)
+| ERestart.                   (* process restart *)
 
 Section Gen.
   Variable g : N.     (* the generator's address *)
-  Variable hdr : option geninfo -> tip -> N -> bh * geninfo.   (* initBlockHeader: original or repaired *)
+  Variable hdr : option geninfo -> tip -> N -> option (bh * geninfo).   (* initBlockHeader *)
 
-  Definition step (s : st) (e : ev) : option st :=
+  (* total: every event is possible in every state *)
+  Definition step (s : st) (e : ev) : st :=
     match e with
-    | EForge c after =>
-        match switching s with
-        | Some _ => None
-        | None =>
-            let '(h, info) := hdr (disk s) (node s) g in
+    | EForge c =>
+        if syncing s then s else
+        match hdr (disk s) (node s) g with
+        | None => s                                   (* initBlockHeader returned an error: nothing generated *)
+        | Some (h, info) =>
             match c with
-            | CrashBeforePersist => Some s
-            | CrashAfterPersist => Some {| disk := Some info; node := node s; switching := None; published := published s |}
-            | NoCrash =>
-                let t' := {| t_hmhp := t_smhp (node s); t_smhp := after; t_height := t_height (node s) + 1 |} in
-                if tip_ok t' then
-                  Some {| disk := Some info; node := t'; switching := None; published := h :: published s |}
-                else None
+            | CrashBeforePersist => s
+            | CrashAfterPersist => {| disk := Some info; node := node s; syncing := false; published := published s |}
+            | NoCrash => {| disk := Some info; node := node s; syncing := false; published := h :: published s |}
             end
         end
-    | ETip t =>
-        match switching s with
-        | Some _ => None
-        | None => if tip_ok t && key_le (node s) t
-                  then Some {| disk := disk s; node := t; switching := None; published := published s |} else None
-        end
-    | ESwitchBegin =>
-        match switching s with
-        | Some _ => None
-        | None => Some {| disk := disk s; node := node s; switching := Some (node s); published := published s |}
-        end
-    | EDelete t | EApply t =>
-        match switching s with
-        | None => None
-        | Some t0 => if tip_ok t
-                     then Some {| disk := disk s; node := t; switching := Some t0; published := published s |} else None
-        end
-    | ESwitchEnd =>
-        match switching s with
-        | None => None
-        | Some t0 => if key_le t0 (node s)
-                     then Some {| disk := disk s; node := node s; switching := None; published := published s |} else None
-        end
-    | ERestart => match switching s with Some _ => None | None => Some s end
+    | ETip t => {| disk := disk s; node := t; syncing := syncing s; published := published s |}
+    | ESync b => {| disk := disk s; node := node s; syncing := b; published := published s |}
+    | ERestart => {| disk := disk s; node := node s; syncing := false; published := published s |}
     end.
 
-  Fixpoint run (s : st) (evs : list ev) : option st :=
-    match evs with
-    | [] => Some s
-    | e :: t => match step s e with Some s' => run s' t | None => None end
-    end.
+  Definition run (s : st) (evs : list ev) : st := fold_left step evs s.
 
-  Definition init (t : tip) : st := {| disk := None; node := t; switching := None; published := [] |}.
+  Definition init (t : tip) : st := {| disk := None; node := t; syncing := false; published := [] |}.
 End Gen.
 
-Definition no_crash_after_persist (evs : list ev) : Prop :=
-  forall a, ~ In (EForge CrashAfterPersist a) evs.
+Definition no_crash_after_persist (evs : list ev) : Prop := ~ In (EForge CrashAfterPersist) evs.
 
 (* a generator history in which maxHeightGenerated may over-approximate (a persisted height whose block was
    never handed on, after a crash); [follower] of BFT.Contradiction is the special case with equality *)
